@@ -263,6 +263,19 @@ theorem gpt_is_gpt (mbrOk : Bool) : tableProbe true mbrOk genTableOrder = some .
 /-- and a disk on which only mbr.Read succeeds is MBR -/
 theorem mbr_is_mbr : tableProbe false true genTableOrder = some .mbr := by decide
 
+/-- the same with the legacy-MBR check of partition.Read, on or off: a GPT disk - sector 0 is a protective
+    MBR or no MBR at all, so `legacy = false` - is GPT -/
+theorem gpt_is_gpt_l (checks mbrOk : Bool) : tableProbeL checks true mbrOk false genTableOrder = some .gpt := by
+  cases checks <;> cases mbrOk <;> decide
+
+/-- a disk partitioned as MBR whose previous GPT structures are still readable (stale primary or backup
+    header: `gptOk` arbitrary) is MBR once partition.Read makes the check ... -/
+theorem mbr_over_stale_gpt_is_mbr (gptOk : Bool) : tableProbeL true gptOk true true genTableOrder = some .mbr := by
+  cases gptOk <;> decide
+
+/-- ... and is reported as GPT (with the partitions of its previous life) on the tree as found -/
+theorem cex_mbr_over_stale_gpt : tableProbeL false true true true genTableOrder = some .gpt := by decide
+
 /-! ### the two defects of the tree as found -/
 
 /-- ext4 over a stale FAT16 (as found: ext4.Create leaves bytes 0..1023 alone): a device whose
